@@ -433,3 +433,238 @@ class AsCompleted(_CHarness):
 
 
 HARNESSES['as_completed'] = AsCompleted
+
+
+# ===========================================================================
+# C20 (b): worker ownership between pools
+# ===========================================================================
+
+class Ownership(_CHarness):
+  """Two (three) WorkerPools over the same address share one Worker object
+  (Worker is a singleton per configuration).  Each thread drives one pool
+  through a short program of acquire/release operations.
+
+  params:
+    progs: one program per pool/thread, each a list of operations from
+           'acq'      pool.next_idle_worker(maybe_acquire=True)
+           'acq_all'  pool._acquire_all()
+           'rel_all'  pool.release_all()
+           'rel_one'  worker.release() if the pool believes it owns the worker
+    nworkers: 1 | 2 shared workers
+  """
+  name = 'ownership'
+  max_steps = 8000
+
+  def __init__(self, progs=(('acq',), ('acq',)), nworkers=1, mode='preempt'):
+    self.params = dict(progs=[list(p) for p in progs], nworkers=nworkers,
+                       mode=mode)
+    self.mode = mode
+    m = _m()
+    hooks.instrument(m.courier_worker.Worker)
+
+  def setup(self):
+    m = _m()
+    p = self.params
+    self.violations = []
+    self.beliefs = {}      # address -> pool index that believes it owns it
+    self.trace = []
+
+    def body():
+      from vmc import vtime
+      addrs = [f'w{i}' for i in range(p['nworkers'])]
+      for a in addrs:
+        m.courier_utils.worker_registry().register(a, vtime.time())
+      pools = [m.courier_worker.WorkerPool(addrs) for _ in p['progs']]
+      self.pools = pools
+      assert all(x is y for x, y in zip(pools[0].all_workers,
+                                        pools[1].all_workers))
+
+      def claim(i, worker):
+        a = worker.address
+        other = self.beliefs.get(a)
+        if other is not None and other != i:
+          self.violations.append(
+              ('two-owners', f'pool{i} acquired {a} while pool{other} owns it'))
+        self.beliefs[a] = i
+
+      def run(i):
+        pool = pools[i]
+        for op in p['progs'][i]:
+          if op == 'acq':
+            w = pool.next_idle_worker(maybe_acquire=True)
+            self.trace.append((i, op, w and w.address))
+            if w is not None:
+              claim(i, w)
+          elif op == 'acq_all':
+            ws = pool._acquire_all()
+            self.trace.append((i, op, [w.address for w in ws]))
+            for w in ws:
+              claim(i, w)
+          elif op == 'rel_all':
+            # ownership ends when the release starts (the release of several
+            # workers is not one atomic step)
+            mine = [a for a, o in self.beliefs.items() if o == i]
+            for a in mine:
+              del self.beliefs[a]
+            pool.release_all()
+            self.trace.append((i, op, mine))
+          elif op == 'rel_one':
+            mine = [w for w in pool.all_workers
+                    if self.beliefs.get(w.address) == i]
+            if mine:
+              del self.beliefs[mine[0].address]
+              mine[0].release()
+            self.trace.append((i, op, [w.address for w in mine[:1]]))
+          # a pool that owns a worker must still hold it, whatever the others did
+          for w in pool.all_workers:
+            if self.beliefs.get(w.address) == i and not w.is_locked(pool):
+              self.violations.append(
+                  ('ownership-lost', f'pool{i} owns {w.address} but it is '
+                   f'locked={w.is_locked()} by-me={w.is_locked(pool)}'))
+
+      ts = [vthreading.Thread(target=run, args=(i,), name=f'pool{i}')
+            for i in range(len(pools))]
+      for t in ts:
+        t.start()
+      for t in ts:
+        t.join()
+      # final consistency: locked <=> exactly one believed owner
+      for w in pools[0].all_workers:
+        owner = self.beliefs.get(w.address)
+        if w.is_locked() != (owner is not None):
+          self.violations.append(
+              ('locked-without-owner' if w.is_locked() else 'owner-without-lock',
+               f'{w.address}: locked={w.is_locked()} believed-owner={owner}'))
+        if owner is not None and w.worker_pool is not pools[owner]:
+          self.violations.append(
+              ('recorded-owner-differs',
+               f'{w.address}: recorded pool is not pool{owner}'))
+    return body
+
+  def outcome(self, res):
+    return (res.failure and res.failure[0], tuple(map(repr, self.trace)),
+            tuple(v[0] for v in self.violations))
+
+  def check(self, res):
+    p = self.params
+    cfg = '|'.join('+'.join(x) for x in p['progs']) + f':W{p["nworkers"]}'
+    if res.failure:
+      kind, info = res.failure
+      return [(f'C20:ownership:{kind}{_stuck(kind, info)}:{cfg}',
+               {'failure': kind, 'info': _info(info)})]
+    out = []
+    for kind in sorted({v[0] for v in self.violations}):
+      ops = sorted({o for prog in p['progs'] for o in prog})
+      out.append((f'C20:ownership:{kind}:ops={"+".join(ops)}',
+                  {'violations': [v for v in self.violations if v[0] == kind][:3],
+                   'trace': repr(self.trace), 'progs': p['progs']}))
+    return out
+
+
+HARNESSES['ownership'] = Ownership
+
+
+# ===========================================================================
+# C20 (a): liveness bookkeeping of a CourierClient over event histories
+# ===========================================================================
+
+LIVENESS_OPS = ('poll', 'tick30', 'tick200', 'push', 'push-dead', 'call', 'kill',
+                'shutdown')
+
+
+class Liveness(_CHarness):
+  """One CourierClient + one CourierServer on the fake transport, driven
+  sequentially through a history of liveness events (virtual time).
+
+  params: ops - list of operations from LIVENESS_OPS; the harness appends a
+  final 'poll'.  Observations after every operation: is the worker reported
+  alive, the recorded heartbeat, the virtual time.
+  """
+  name = 'liveness'
+  tick = 15.0
+  max_steps = 20000
+  THRESHOLD = 180.0
+
+  def __init__(self, ops=(), mode='preempt'):
+    self.params = dict(ops=list(ops), mode=mode)
+    self.mode = mode
+    _m()
+
+  def setup(self):
+    m = _m()
+    p = self.params
+    self.obs = []
+
+    def body():
+      from vmc import vtime
+      server = m.courier_server.CourierServer('w0')
+      server.start()
+      client = m.courier_worker.Worker('w0', call_timeout=20,
+                                       heartbeat_threshold_secs=self.THRESHOLD)
+      reg = m.courier_utils.worker_registry()
+      for op in list(p['ops']) + ['poll']:
+        alive = None
+        if op == 'poll':
+          alive = client.is_alive
+        elif op == 'tick30':
+          vtime.sleep(30)
+        elif op == 'tick200':
+          vtime.sleep(200)
+        elif op == 'push':
+          # what the host server's heartbeat handler does for a pushed heartbeat
+          server._heartbeat('w0', True)
+        elif op == 'push-dead':
+          server._heartbeat('w0', False)
+        elif op == 'call':
+          client.call(m.lazy_fns.trace(fx.add)(1, 2))
+        elif op == 'kill':
+          fake_courier.kill('w0')
+        elif op == 'shutdown':
+          client.shutdown()
+        # let in-flight RPCs finish or expire before observing
+        vtime.sleep(0.5)
+        self.obs.append((op, alive, reg.get('w0'), vtime.time(),
+                         reg.data.get('w0', 'absent') is None))
+      if server.has_started:
+        server.stop()
+    return body
+
+  def outcome(self, res):
+    return (res.failure and res.failure[0],
+            tuple((o[0], o[1], o[4]) for o in self.obs))
+
+  def check(self, res):
+    if res.failure:
+      kind, info = res.failure
+      return [(f'C20:liveness:{kind}{_stuck(kind, info)}',
+               {'failure': kind, 'info': _info(info), 'ops': self.params['ops']})]
+    out = []
+    dead = False          # declared dead (shutdown / pushed not-alive)
+    prev_hb = 0.0
+    for i, (op, alive, hb, now, is_none) in enumerate(self.obs):
+      if op in ('shutdown', 'push-dead'):
+        dead = True
+      elif op == 'push':
+        dead = False
+      if dead and (hb != 0 or not is_none):
+        out.append(('C20:liveness:dead-worker-has-a-heartbeat-again',
+                    {'ops': self.params['ops'], 'at': i, 'obs': self.obs}))
+      if dead and alive:
+        out.append(('C20:liveness:dead-worker-reported-alive',
+                    {'ops': self.params['ops'], 'at': i, 'obs': self.obs}))
+      if not dead and hb < prev_hb:
+        out.append(('C20:liveness:heartbeat-moved-backwards',
+                    {'ops': self.params['ops'], 'at': i, 'obs': self.obs}))
+      if alive is not None:
+        # liveness is a function of the recorded heartbeat and the threshold
+        # (the poll itself takes < 1 s of virtual time)
+        expect = (now - hb) < self.THRESHOLD
+        near = abs((now - hb) - self.THRESHOLD) < 1.0
+        if alive != expect and not near:
+          out.append(('C20:liveness:alive-not-a-function-of-last-heartbeat',
+                      {'ops': self.params['ops'], 'at': i, 'obs': self.obs}))
+      prev_hb = 0.0 if dead else hb
+    return out
+
+
+HARNESSES['liveness'] = Liveness
